@@ -20,9 +20,10 @@ the formula grammar of Model/Formula.lean with structured operands —
 
 Tokens stand for lexemes in their canonical spelling: the element separator inside a matrix row is
 its own token (`sp`), so is the comma inside a swizzle (`swz`: no space may follow it), a kind annotation is
-opaque, literals and names are numbered.  Every
-recursive call spends one unit of fuel (structural recursion); lists are read by the generic
-`sepBy`, which stops at the first token that is not the separator.
+opaque, literals and names are numbered (the integer after a dot is a literal token).  Every recursive call
+spends one unit of fuel (structural recursion); separated lists are read by the generic `sepBy`, which stops at the
+first token that is not the separator, repetitions without separator (the subscripts after a name, the rows of a
+table) by the generic `many`, which stops at the first element that does not parse.
 -/
 import MechVerif.Model.Prec
 namespace MechVerif.Syntax
